@@ -235,17 +235,54 @@ fn c06_judge(case: &Case, run: &Run, an: &Analysis, stats: &mut Stats) -> CheckR
   Ok(())
 }
 
+/// Negative half, continued: programs with a single writer per resource whose builds are aborted (task failures, injected
+/// panics) and then rebuilt top-down *and bottom-up*: re-execution of a writer whose previous execution was aborted is
+/// still re-execution of the same writer - never an overlap.
+fn c06_after_aborts(case: &Case, stats: &mut Stats) -> CheckResult {
+  let run = crate::engine::run_case(case, &Opts::default());
+  let mut seen_abort = false;
+  let mut rewrite_after_abort = false;
+  let mut aborted_writers: Vec<TaskId> = vec![];
+  let mut sh = Shadow::default();
+  for (si, bi, range, p) in builds(&run) {
+    for l in &run.log[range.clone()] {
+      if let L::TWriteCall { t, .. } = l { if aborted_writers.contains(t) { rewrite_after_abort = true; } }
+      if let L::Aborted = l { for t in sh.stack.iter() { if sh.last.get(t).map(|e| e.ops.iter().any(|d| matches!(d, Dep::Write { .. }))).unwrap_or(false) && !aborted_writers.contains(t) { aborted_writers.push(*t); } } }
+      sh.feed(l);
+    }
+    if let Some(m) = p {
+      if panic_kind(&m) == PanicKind::Overlap {
+        return Err(Failure::new(format!("[c06-spurious] session {} build {} ({}an earlier abort): program with a single writer per resource aborted: {}", si, bi, if seen_abort { "after " } else { "no " }, m)));
+      }
+      seen_abort = true;
+    }
+  }
+  if seen_abort { stats.class("negative_half_case_with_abort"); }
+  if rewrite_after_abort { stats.class("writer_aborted_after_writing_then_writes_again"); stats.nontrivial(fingerprint(case)); sample(case, stats); }
+  Ok(())
+}
+
+fn c06_extra(_spec: &Spec, tier: Tier, seed: u64, known: &crate::driver::Known, report: &mut crate::driver::Report) {
+  let (shards, cases) = match tier { Tier::Quick => (8, 8000), Tier::Thorough => (16, 120000) };
+  let acfg = super::roles::after_aborts_cfg(tier);
+  let scfg = crate::driver::SearchCfg { prop: "C06", label: "after-aborts", seed, shards, cases_per_shard: cases, max_shrink_iters: 3000 };
+  let (stats, found) = crate::driver::search(&scfg, known, || gen::case_strategy(acfg.clone()).boxed(), |c, s| c06_after_aborts(c, s), |c| pretty_case(c));
+  report.absorb("after-aborts", stats, found);
+}
+
+pub fn replay_c06_after_aborts(case: &Case) -> CheckResult { crate::driver::guarded(|| c06_after_aborts(case, &mut Stats::dummy())) }
+
 pub const C06: Spec = Spec {
   prop: "C06",
   level: "exploration",
-  rule: "well-formed generated programs with a second, unconditional writer of one generated resource injected at any task and position (through Context::write or create_writer+written_to), x histories in any order, session split and build mode; 30% stay un-injected (negative half: writers re-executed repeatedly must never be reported as overlapping). Oracle on the task-side log + shadow record: when a task writes g while a different task has a recorded write of g, the write function must not run (context write), the call must not return, and the abort must be an overlapping-write error; after every returning build every resource has at most one recorded writer. Non-trivial = both writers attempted on one instance and the overlap was demanded (positive), or writers re-executed >=2 times (negative); distinct by case hash",
+  rule: "well-formed generated programs with a second, unconditional writer of one generated resource injected at any task and position (through Context::write or create_writer+written_to), x histories in any order, session split and build mode; 30% stay un-injected (negative half: writers re-executed repeatedly must never be reported as overlapping). Oracle on the task-side log + shadow record: when a task writes g while a different task has a recorded write of g, the write function must not run (context write), the call must not return, and the abort must be an overlapping-write error; after every returning build every resource has at most one recorded writer. A further search (label after-aborts) runs single-writer programs whose builds are aborted by task failures and injected panics and are then rebuilt top-down and bottom-up: an aborted writer writing again is never an overlap. Non-trivial = both writers attempted on one instance and the overlap was demanded (positive), or writers re-executed >=2 times / a writer aborted after writing writes again (negative); distinct by case hash",
   cfg: inj_cfg,
   transform: identity,
   judge: c06_judge,
   opts: Opts::default,
   quick: (8, 15000),
   thorough: (16, 250000),
-  extra: None,
+  extra: Some(c06_extra),
   strategy: Some(c06_strategy),
   assumptions: &["both writes of the injected resource are unconditional, so a recorded writer is a real writer in every state"],
 };
